@@ -275,18 +275,18 @@ func (app *App) customRequestHandler(rctx *fasthttp.RequestCtx) {
 func (app *App) addPrefixToRoute(prefix string, route *Route) *Route {
 	prefixedPath := getGroupPath(prefix, route.Path)
 	prettyPath := prefixedPath
-	// Case-sensitive routing, all to lowercase
-	if !app.config.CaseSensitive {
-		prettyPath = utils.ToLower(prettyPath)
-	}
 	// Strict routing, remove trailing slashes
 	if !app.config.StrictRouting && len(prettyPath) > 1 {
 		prettyPath = utils.TrimRight(prettyPath, '/')
 	}
+	// Case-sensitive routing: the constant parts to lowercase, constraints keep their spelling
+	route.routeParser = parseRouteFold(prettyPath, !app.config.CaseSensitive, app.customConstraints...)
+	if !app.config.CaseSensitive {
+		prettyPath = utils.ToLower(prettyPath)
+	}
 
 	route.Path = prefixedPath
 	route.path = RemoveEscapeChar(prettyPath)
-	route.routeParser = parseRoute(prettyPath, app.customConstraints...)
 	// the parameters of the prefix belong to the route as well
 	route.Params = parseRoute(prefixedPath, app.customConstraints...).params
 	// same flags as a route registered directly under the prefixed path (mounting at "/" keeps "/" and "/*")
@@ -340,16 +340,17 @@ func (app *App) register(methods []string, pathRaw string, group *Group, handler
 		pathRaw = "/" + pathRaw
 	}
 	pathPretty := pathRaw
-	if !app.config.CaseSensitive {
-		pathPretty = utils.ToLower(pathPretty)
-	}
 	if !app.config.StrictRouting && len(pathPretty) > 1 {
 		pathPretty = utils.TrimRight(pathPretty, '/')
 	}
-	pathClean := RemoveEscapeChar(pathPretty)
-
+	// the route is parsed in its own spelling, only its constant parts are lower-cased for case-insensitive
+	// routing: the text of constraints (regular expressions, datetime layouts, custom names) is case-sensitive
 	parsedRaw := parseRoute(pathRaw, app.customConstraints...)
-	parsedPretty := parseRoute(pathPretty, app.customConstraints...)
+	parsedPretty := parseRouteFold(pathPretty, !app.config.CaseSensitive, app.customConstraints...)
+	if !app.config.CaseSensitive {
+		pathPretty = utils.ToLower(pathPretty)
+	}
+	pathClean := RemoveEscapeChar(pathPretty)
 
 	isMount := group != nil && group.app != app
 
